@@ -162,6 +162,10 @@ func runTermScenario(s termScenario, callers []string) termResult {
 	if s.Pending == "initcmd" {
 		ctl.initCmd = func() tea.Msg { return cmdMsg{"init"} }
 	}
+	if s.Pending == "neverinit" {
+		// the command returned by Init never returns
+		ctl.initCmd = func() tea.Msg { neverGate.pass(); return nil }
+	}
 	if s.Strike == "pre-cancel" {
 		cancelParent() // the context is already cancelled when Run starts
 	}
@@ -406,7 +410,7 @@ func atomicArm(g *gate) {
 func termMatrix(thorough bool, r *rng) []termScenario {
 	causes := []string{"quitmsg", "quitapi", "interrupt", "kill", "ctx", "readerr", "panic-update", "panic-view", "panic-cmd", "panic-init"}
 	strikes := []string{"idle", "in-update", "in-view", "in-filter", "in-writer", "batch", "in-init"}
-	pendings := []string{"none", "senders1", "senders50", "nevercmd", "second-quit", "second-kill"}
+	pendings := []string{"none", "senders1", "senders50", "nevercmd", "neverinit", "second-quit", "second-kill"}
 	inputs := []string{"nil", "blocking", "pipe", "endless"}
 	var all []termScenario
 	for _, c := range causes {
@@ -479,7 +483,7 @@ func (s termScenario) valid() bool {
 		return false
 	}
 	if s.Strike == "in-init" && (s.Cause == "quitmsg" || s.Cause == "quitapi" || s.Cause == "interrupt" ||
-		strings.HasPrefix(s.Cause, "panic") || s.Pending == "nevercmd" || s.Pending == "second-quit" || s.Cause == "readerr") {
+		strings.HasPrefix(s.Cause, "panic") || s.Pending == "nevercmd" || s.Pending == "neverinit" || s.Pending == "second-quit" || s.Cause == "readerr") {
 		return false // messages cannot be delivered before the loop runs; Init has to return first
 	}
 	if s.Cause == "panic-view" && s.Strike == "in-view" {
